@@ -295,6 +295,9 @@ func c02Request(sp *spec.Spec, ex *rt.Exchange) *Verdict {
 	if ex.StubIn == nil {
 		class, text := describeErr(ex)
 		v.add(mkKey("rejected:"+notDeliveredName(ex), "valid-payload-not-delivered:"+class, "", Explain(sp, m, ex.Case.Sent)), "valid payload %s did not reach the service method: %s", vtree.Show(ex.Case.Sent), text)
+		if isMultipart(m) && ex.Case.Raw == nil && ex.WireReq != nil {
+			multipartWire(ex.WireReq, v) // name what is wrong with the multipart framing the generated client produced (multipart.go)
+		}
 		return v
 	}
 	if ex.StubCalls != 1 {
